@@ -147,3 +147,12 @@ pub use crate::intern::Lookup;
 pub use crate::intern::SerGuard;
 #[doc(inline)]
 pub use crate::intern::WithIntern;
+
+/// Visibility-only hooks for /verif (contract verification harnesses and replay).
+#[cfg(isographlabs_isograph_verif)]
+pub mod verif_hooks {
+    pub use crate::atomic_arena::verif_hooks as arena;
+    pub use crate::atomic_arena::AtomicArena;
+    pub use crate::atomic_arena::Ref;
+    pub use crate::small_bytes::SmallBytes;
+}
